@@ -1,0 +1,67 @@
+// Copyright 2026 The Go Authors. All rights reserved.
+// Use of this source code is governed by a BSD-style
+// license that can be found in the LICENSE file.
+
+//go:build verif
+
+package blake2s
+
+import "sync"
+
+// Verification hook (build tag verif only): forces the hashBlocks dispatch
+// flags so that a conformance harness can run every implementation variant
+// (SSE4.1, SSSE3, SSE2, generic) in one process. Requests are restricted to
+// what the CPU supports; with the purego tag (or on other architectures)
+// hashBlocks is always the generic code and the flags have no effect.
+
+// Dispatch flag bits for VerifSetDispatch.
+const (
+	VerifUseSSE4 = 1 << iota
+	VerifUseSSSE3
+	VerifUseSSE2
+)
+
+var (
+	verifOnce      sync.Once
+	verifSupported uint
+)
+
+func verifCurrent() uint {
+	var f uint
+	if useSSE4 {
+		f |= VerifUseSSE4
+	}
+	if useSSSE3 {
+		f |= VerifUseSSSE3
+	}
+	if useSSE2 {
+		f |= VerifUseSSE2
+	}
+	return f
+}
+
+// VerifDispatchSupported returns the dispatch flags selected by CPU feature
+// detection at package initialization.
+func VerifDispatchSupported() uint {
+	verifOnce.Do(func() { verifSupported = verifCurrent() })
+	return verifSupported
+}
+
+// VerifDispatch returns the dispatch flags currently in effect.
+func VerifDispatch() uint { return verifCurrent() }
+
+// VerifSetDispatch sets useSSE4/useSSSE3/useSSE2 to the given combination,
+// masked by what the CPU supports (flags can only be downgraded), and
+// returns a function restoring the previous values. Not safe for use
+// concurrently with hashing.
+func VerifSetDispatch(flags uint) (restore func()) {
+	flags &= VerifDispatchSupported()
+	prev := verifCurrent()
+	set := func(f uint) {
+		useSSE4 = f&VerifUseSSE4 != 0
+		useSSSE3 = f&VerifUseSSSE3 != 0
+		useSSE2 = f&VerifUseSSE2 != 0
+	}
+	set(flags)
+	return func() { set(prev) }
+}
